@@ -551,7 +551,8 @@ func LD2(rc *RC) {
 		rc.S.Undec("LD2", fi.Key, pos, fmt.Sprintf("expected two transpositions X.T(pattern...), found %d", len(calls)))
 		return
 	}
-	want := []*regexp.Regexp{regexp.MustCompile(`^append\(%\w+, \$axesA\.\.\.\)$`), regexp.MustCompile(`^append\(\$axesB, %\w+\.\.\.\)$`)}
+	// either append(free, axesA...) or, into storage of its own, append(append(buf[:0], free...), axesA...)
+	want := []*regexp.Regexp{regexp.MustCompile(`^append\((?:%\w+|append\(%\w+(?:\[:0\])?, %\w+\.\.\.\)), \$axesA\.\.\.\)$`), regexp.MustCompile(`^append\((?:\$axesB|append\(%\w+(?:\[:0\])?, \$axesB\.\.\.\)), %\w+\.\.\.\)$`)}
 	names := []string{"first operand: append(freeAxes, axesA...)", "second operand: append(axesB, freeAxes...)"}
 	for k, cl := range calls {
 		var idx int
